@@ -424,6 +424,7 @@ class JobResult:
         self.unknown = 0
         self.xval_ok = 0
         self.xval_inexact = 0
+        self.xval_skipped = 0
         self.xval_bad = []
         self.violations = []       # dicts: site, inputs(json), observed, info
         self.unconfirmed = []
@@ -440,7 +441,7 @@ class JobResult:
 
     def merge(self, o):
         for k in ('paths', 'forks', 'checks', 'solver_s', 'obligations', 'discharged', 'sat', 'unknown', 'xval_ok',
-                  'xval_inexact', 'budget', 'wall'):
+                  'xval_inexact', 'xval_skipped', 'budget', 'wall'):
             setattr(self, k, getattr(self, k) + getattr(o, k))
         self.xval_bad += o.xval_bad
         self.exc_msgs = (self.exc_msgs + o.exc_msgs)[:4]
@@ -495,9 +496,16 @@ class Runner:
         try:
             sat = ctx.check(neg)
         except S.Unsupported:
-            res.unknown += 1
-            res.errors.append("unknown at %s" % site)
-            return
+            # one retry with a four times longer limit (timeouts are wall-clock and the cores are shared)
+            try:
+                ctx.solver.set("timeout", 4 * self.job.solver_timeout_ms)
+                sat = ctx.check(neg)
+            except S.Unsupported:
+                res.unknown += 1
+                res.errors.append("unknown at %s" % site)
+                return
+            finally:
+                ctx.solver.set("timeout", self.job.solver_timeout_ms)
         if not sat:
             res.discharged += 1
             st[1] += 1
@@ -668,7 +676,7 @@ class Runner:
             if not models and cached is not None:
                 models = [(cached, False)]      # the model that steered the last decision of this path
             if not models:
-                res.errors.append("no model for path")
+                res.xval_skipped += 1        # the solver could not produce a witness for this (feasible) path within its limit
                 return
             model, exact = models[0]
             bad = None
@@ -701,7 +709,7 @@ class Runner:
                                             observed=[[n, jsonable(v)] for n, v in AC.obs][:12],
                                             exception=type(cexc).__name__ if cexc else None,
                                             path_decisions=len(pr.prefix)))
-            elif exact and self.job.exact_floats:
+            elif (exact and self.job.exact_floats) or bad.startswith('exception mismatch'):
                 res.xval_bad.append(dict(job=self.job.name, why=bad, inputs=to_json(cin)))
             else:
                 res.xval_inexact += 1
